@@ -287,7 +287,7 @@ theorem exitJoinFrom_cls (s0 : St) (i : Nat) (hi : i ≤ s0.procs.length) :
   · rw [hc', h]; simp [cIn, idxV, rCall, rStopping, exitPhasePc, rJoinPc, stopsV, setupPc, getPathPc, loopPc, runSetPc]
   · rw [hc', h]; simp [cIn, idxV, rCall, rStopping, exitPhasePc, rJoinPc, stopsV, setupPc, getPathPc, loopPc, runSetPc, hk]
 
-theorem LiveInv_stepC_c (hV : LiveInv s) (h : stepC s = some s')
+theorem LiveInv_stepC_c (hL : LInv s) (hV : LiveInv s) (h : stepC s = some s')
     (hc : match s.cpc with
       | .fStopSet | .fJoin | .rPutNone | .rStopSet | .rJoin | .exitPut _ | .exitJoin _ | .done => True
       | _ => False) : LiveInv s' := by
@@ -346,7 +346,40 @@ theorem LiveInv_stepC_c (hV : LiveInv s) (h : stepC s = some s')
     have hidx : i < s.procs.length := by have := hV.pr.idx; rw [hpc] at this; exact this
     have hwk := woken_false_of hV (by rw [hpc]; rfl)
     split at h
-    · cases h
+    · -- the queue is full: the loop is left only when every listed worker has exited, i.e. nobody is alive (in a plain
+      -- pool this cannot happen: `cnt4`)
+      split at h
+      · rename_i hall
+        simp only [Option.some.injEq] at h; subst h
+        have hlive : liveCnt s = 0 := liveCnt_zero_of_all hL hall
+        obtain ⟨lk, pr, rp, cs, ct⟩ := hV
+        refine ⟨LockI_congr lk rfl (by rw [hpc]; rfl) rfl, ProcI_congr pr rfl rfl rfl (fun _ hh => hh) trivial,
+          ReplI_congr rp rfl rfl rfl rfl rfl rfl ?_ ?_ (by rw [hpc]; rfl) (by rw [hpc]; rfl) ?_, ?_, ?_⟩
+        · intro hh; cases hh
+        · intro hh; cases hh
+        · intro hh; rcases hh with hh | hh | hh <;> cases hh
+        · apply ConsI_gen cs (by rfl) (by rfl) (by rfl) (by rfl)
+          · intro hh; cases hh
+          · intro _; rw [hpc]; rfl
+          · intro hh; have : s.woken = true := hh; rw [hwk] at this; cases this
+          · intro hh; cases hh
+          · intro hh; cases hh
+          · intro hh; cases hh
+        · obtain ⟨k1, k2, k3, k4⟩ := ct
+          have hex : exitPhasePc s.cpc = true := by rw [hpc]; rfl
+          have hss : stopsSent s = i := by unfold stopsSent; rw [hpc]; rfl
+          have hss' : stopsSent { s with cpc := .done } = s.procs.length := rfl
+          have hlive' : liveCnt { s with cpc := .done } = 0 := hlive
+          have h3 := k3 hex
+          rw [hss] at h3
+          constructor
+          · exact k1
+          · intro _; rw [hss', hlive']; show 0 + s.procs.length ≤ noneCount s.workQ + s.procs.length; omega
+          · intro _; rw [hss']; show noneCount s.workQ ≤ s.procs.length; omega
+          · intro hf; rw [hss', hlive']
+            have h4 := k4 hf; rw [hss, hlive] at h4
+            show noneCount s.workQ + s.procs.length ≤ 0 + s.procs.length; omega
+      · cases h
     · -- the state after the put, with the new pc `c'`
       have key : ∀ c', idxV c' s.procs.length → cIn c' = false → rCall c' = false → rStopping c' = false →
           exitPhasePc c' = true → rJoinPc c' = false → stopsV c' s.procs.length = i + 1 → setupPc c' = false →
@@ -423,7 +456,7 @@ theorem LiveInv_stepC (hS : SafeInv s) (hL : LInv s) (hV : LiveInv s) (hw : Well
   case rdSending | rdDataCnt | qsize1 | lockAcq | qsize2 | getNowait | lockRel | getBlock | flowClear | flowIsSet | flowSet =>
     exact LiveInv_stepC_b hS hV hw h (by rw [hpc]; rfl)
   case fStopSet | fJoin | rPutNone | rStopSet | rJoin | exitPut | exitJoin | done =>
-    exact LiveInv_stepC_c hV h (by rw [hpc]; trivial)
+    exact LiveInv_stepC_c hL hV h (by rw [hpc]; trivial)
   all_goals exact LiveInv_stepC_a hL hV h (by rw [hpc]; trivial)
 
 end WindVerif.Pool
